@@ -49,6 +49,64 @@ def random_schedules(seed, salt, combos, per_combo, steps, *, inputs_mode="two",
     return out
 
 
+def scenario_schedules(seed, salt, reps=1):
+    """Scripted prefixes that put the members just before an interesting point (a member prepared and committed while the
+    others timed out; commits in flight; ...), then ONE targeted adversarial message with a chosen defect delivered to
+    chosen members, then a random continuation.  The prefixes use message selectors, so they are replayed on the code:
+    a window can never start from a state the implementation cannot reach."""
+    r = vlib.rng(seed, "qbft/scen/" + salt)
+    out = []
+
+    def S(t, s_, rnd, p):
+        return {"ev": "DeliverSel", "p": p, "t": t, "s": s_, "r": rnd}
+
+    def tail(steps=160, byz=True, ptimeout=8):
+        return {"ev": "Random", "steps": steps, "seed": r.randrange(1 << 30), "inputs": [1, 2, 1, 2], "vals": [1, 2],
+                "ptimeout": ptimeout, "pbyz": 8 if byz else 0, "pdup": 6, "ploss": 4, "crashes": 0, "plag": 0}
+    for rep in range(reps):
+        # --- n=4, inst=0: leader(1)=1, leader(2)=2, leader(3)=3 ---------------------------------------------------
+        # A. Byzantine leader of round 2; member 0 prepared (and committed) value 2 in round 1, members 1,3 did not.
+        for defect in range(8):
+            hon = [0, 1, 3]
+            pre = [config_step(4, 0, [2])] + [{"ev": "Start", "p": p} for p in hon] + \
+                  [{"ev": "Input", "p": p, "v": 1 + (p % 2)} for p in hon] + \
+                  [S("PP", 1, 1, p) for p in hon] + [S("P", q, 1, 0) for q in hon] + [S("P", 1, 1, 1), S("P", 3, 1, 3)] + \
+                  [{"ev": "Timeout", "p": p} for p in hon]
+            if defect % 2 == 0:   # let member 1 learn member 0's prepared ROUND-CHANGE first
+                pre += [S("RC", 0, 2, 1)]
+            to = r.sample(hon, r.randint(2, 3))
+            out.append(pre + [{"ev": "ByzCraft", "kind": "pp", "b": 2, "r": 2, "v": 1, "vals": [1, 2], "defect": defect,
+                               "seed": r.randrange(1 << 30), "to": to}, tail()])
+        # B. Byzantine NON-leader (3) forging ROUND-CHANGE claims towards the honest leader of round 2 (member 2)
+        for defect in range(6):
+            hon = [0, 1, 2]
+            pre = [config_step(4, 0, [3])] + [{"ev": "Start", "p": p} for p in hon] + \
+                  [{"ev": "Input", "p": p, "v": 1 + (p % 2)} for p in hon] + \
+                  [S("PP", 1, 1, p) for p in hon] + [S("P", q, 1, 0) for q in hon] + [S("P", 1, 1, 1)] + \
+                  [{"ev": "ByzCraft", "kind": "vote", "b": 3, "r": 1, "v": 2, "vals": [1, 2], "defect": 0,
+                    "seed": r.randrange(1 << 30), "to": []}] + \
+                  [{"ev": "Timeout", "p": p} for p in hon]
+            out.append(pre + [{"ev": "ByzCraft", "kind": "rc", "b": 3, "r": 2, "v": 1, "vals": [1, 2], "defect": defect,
+                               "seed": r.randrange(1 << 30), "to": [2, 0]},
+                              S("RC", 0, 2, 2), S("RC", 1, 2, 2), tail()])
+        # C. adversarial DECIDED while honest COMMITs for value 2 / round 1 are in flight
+        for defect in range(6):
+            hon = [0, 1, 3]
+            pre = [config_step(4, 0, [2])] + [{"ev": "Start", "p": p} for p in hon] + \
+                  [{"ev": "Input", "p": p, "v": 1 + (p % 2)} for p in hon] + \
+                  [S("PP", 1, 1, p) for p in hon] + [S("P", q, 1, p) for p in hon for q in hon]
+            out.append(pre + [{"ev": "ByzCraft", "kind": "d", "b": 2, "r": 1, "v": r.choice([1, 2]), "vals": [1, 2],
+                               "defect": defect, "seed": r.randrange(1 << 30), "to": r.sample(hon, 2)}, tail()])
+        # D. honest only: a lagging member jumps to round 2 through a justified PRE-PREPARE that is then re-delivered
+        hon = [0, 1, 2, 3]
+        pre = [config_step(4, 0, [])] + [{"ev": "Start", "p": p} for p in hon] + \
+              [{"ev": "Input", "p": p, "v": 1 + (p % 2)} for p in hon] + \
+              [{"ev": "Timeout", "p": p} for p in [1, 2, 3]] + [S("RC", q, 2, 2) for q in [1, 2, 3]] + \
+              [S("PP", 2, 2, 0), S("PP", 2, 2, 0), S("PP", 2, 2, 1), S("PP", 2, 2, 1)]
+        out.append(pre + [tail(byz=False)])
+    return out
+
+
 def tlc_gen_schedules(pid, seed, params, num, depth, limit):
     """Schedules from TLC simulation of QBFTGen (adversary repertoire of the spec)."""
     d = vlib.scratch(pid, FAMILY)
